@@ -68,9 +68,12 @@ def mk_machine(sc, iters=1):
     from bob.learn.em import IVectorMachine
 
     ubm = gen.mk_gmm(sc["w"], sc["m"], sc["v"])
-    iv = IVectorMachine(ubm, dim_t=sc["R"], max_iterations=iters, update_sigma=sc["update_sigma"], variance_floor=sc["floor"])
-    iv.dim_c, iv.dim_d = sc["C"], sc["D"]
     route = sc.get("route", "fresh")
+    # a machine that is used first is also configured late: it is created (and used) with another floor, the configured one is set
+    # afterwards through the public attribute / set_params - the floor that counts is the one in force when a step runs
+    late_floor = route == "reused"
+    iv = IVectorMachine(ubm, dim_t=sc["R"], max_iterations=iters, update_sigma=sc["update_sigma"], variance_floor=sc["floor"] * 1e-3 if late_floor else sc["floor"])
+    iv.dim_c, iv.dim_d = sc["C"], sc["D"]
     if route != "fresh":
         # the machine is used with other parameters first (project, possibly one E/M step), then re-parameterised by
         # assignment — all of T and sigma, or only one of them (the other keeps its array object): the property is about
@@ -87,6 +90,10 @@ def mk_machine(sc, iters=1):
         if route == "reused":
             core.impl(lambda: ivmod.m_step(iv, ivmod.e_step(iv, [st, st])))
             core.impl(lambda: iv.project(st))
+            if sc.get("seed", 0) % 2:
+                iv.set_params(variance_floor=sc["floor"])
+            else:
+                iv.variance_floor = sc["floor"]
         if route == "reused_sigma":
             iv.sigma = S0
             return iv
@@ -213,7 +220,10 @@ def oracle(sc, iters=4):
             traj.append(marginal(sc, np.asarray(iv.T, float), np.asarray(iv.sigma, float)))
         else:
             traj.append(None)
-        r = core.impl(lambda: ivmod.m_step(iv, ivmod.e_step(iv, sts)))
+        # the statistics reach the E-step as any iterable: a list, a tuple, or a one-shot generator (what a partition of a Dask bag
+        # built with map_partitions(lambda part: (acc_stats(f) for f in part)) is)
+        data = [lambda: sts, lambda: (s_ for s_ in sts), lambda: tuple(sts)][(k + len(sts)) % 3]()
+        r = core.impl(lambda: ivmod.m_step(iv, ivmod.e_step(iv, data)))
         if isinstance(r, core.ImplError):
             return {"sig": "ivector-step-raises", "what": repr(r)}
     if not (np.all(np.isfinite(iv.T)) and np.all(np.isfinite(iv.sigma))):
